@@ -1203,6 +1203,9 @@ func (s *Sim) lastSMSTo(number string) string {
 	return ""
 }
 
+// SMSSentToAny reports whether any code was ever delivered to number.
+func (s *Sim) SMSSentToAny(number string) bool { return number != "" && s.lastSMSTo(number) != "" }
+
 // SMSSentTo reports whether code was ever delivered to number.
 func (s *Sim) SMSSentTo(number, code string) bool {
 	if number == "" || code == "" {
